@@ -21,6 +21,8 @@ def plan(tier):
             (2, 2, 'FULL', 1), (3, 1, 'FULL', 1), (2, 1, 'S4', 1)]
     if tier == 'thorough':
         fams += [(3, 2, 'FULL', 1), (2, 3, 'FULL_NO3', 2), (3, 1, 'S4', 1), (1, 3, 'FULL', 2)]
+    for lo in range(0, 64, 4):
+        t.append({'kind': 'medium', 'lo': lo, 'hi': lo + 4})
     for n, k, a, split in fams:
         for tk in space.tasks(n, k, ALPHAS[a], split):
             tk.update(alpha=a, pol='all' if (n + k <= 4 and tier == 'thorough') or n + k <= 3 else ('last2' if k >= 3 else 'core'))
@@ -30,7 +32,7 @@ def plan(tier):
 
 def describe(tier):
     return {
-        'rule': 'E1: every circuit of F(n,k,A) x output policy x selection of output indices (None, [], every '
+        'rule': 'medium: 12 arithmetic generator circuits (up to ~250 gates) and 44 chains over two inputs (every binary type, mixed types, NOT/IFF; lengths 10..14, 30, 126..128, 140, 300): for every input assignment and every single-output / all-output selection the CNF plus the assignment is satisfiable iff the outputs are True and has exactly one model (decided by the complete solver vsat with model enumeration). E1: every circuit of F(n,k,A) x output policy x selection of output indices (None, [], every '
         'index list of length<=2 incl. repeats); all 2^|vars| assignments of the produced CNF enumerated; '
         'is_circuit_satisfiable executed once per admissible solver answer (every model). A case = '
         '(circuit, outputs, selection); distinct = distinct (n, |vars|, |clauses|, |S|) outcomes.',
@@ -213,7 +215,100 @@ def check_circuit(n, gates, acc, pol):
     acc.sample({**space.spec_json(n, gates, pols[-1]), 'selection': None})
 
 
+def medium_circuits():
+    """(name, circuit) - structured circuits beyond the E1 bound: arithmetic generators and long chains."""
+    import cirbo.synthesis.generation.arithmetics as A
+    from cirbo.core.circuit import Circuit, gate as G
+    from cirbo.synthesis.generation.generation import generate_plus_one
+
+    out = []
+    for n in (3, 5, 7):
+        out.append((f'sum_n_bits({n})', A.generate_sum_n_bits(n)))
+    out.append(('sum_n_bits(6,aig)', A.generate_sum_n_bits(6, basis='AIG')))
+    for a, b in ((2, 2), (3, 3), (4, 4), (5, 5), (6, 4)):
+        out.append((f'mul({a},{b})', A.generate_mul(a, b)))
+    out.append(('mul_dadda(4,4)', A.generate_mul(4, 4, type=A.MulMode.DADDA)))
+    out.append(('plus_one(5,6)', generate_plus_one(5, 6)))
+    out.append(('sub(4,3)', A.generate_sub_two_numbers(4, 3)))
+    out.append(('div_mod(3)', A.generate_div_mod(3)))
+    out.append(('sqrt(6)', A.generate_sqrt(6)))
+    # chains over two inputs: every gate type repeated, and a mixed pattern; lengths around 12 and 128 labels
+    types2 = ('AND', 'OR', 'XOR', 'NAND', 'NOR', 'NXOR', 'GT', 'LT', 'GEQ', 'LEQ', 'LNOT', 'RNOT', 'LIFF', 'RIFF')
+    for L in (10, 11, 12, 13, 14, 30, 126, 127, 128, 140, 300):
+        for pattern in ('mixed', 'NOT-IFF', 'XOR', 'GT'):
+            c = Circuit()
+            c.add_inputs(['x0', 'x1'])
+            prev = 'x0'
+            for i in range(L):
+                lab = f'c{i}'
+                if pattern == 'mixed':
+                    t = types2[i % len(types2)]
+                    c.emplace_gate(lab, getattr(G, t), (prev, 'x1' if i % 3 else 'x0'))
+                elif pattern == 'NOT-IFF':
+                    c.emplace_gate(lab, G.NOT if i % 2 else G.IFF, (prev,))
+                else:
+                    c.emplace_gate(lab, getattr(G, pattern), (prev, 'x1'))
+                prev = lab
+            c.emplace_gate('out', G.AND, (prev, 'x0'))
+            c.emplace_gate('out2', G.XOR, (prev, 'c0'))
+            c.set_outputs(['out', 'out2', prev])
+            out.append((f'chain({pattern},{L})', c))
+    return out
+
+
+def check_medium(acc, name, c):
+    """Beyond brute force over all CNF variables: for every total input assignment x and every selection in
+    {each single output, all outputs}: CNF + x is satisfiable iff the selected outputs are True at x, and then
+    it has exactly ONE model (every variable is determined by the inputs)."""
+    from cirbo.sat.cnf import tseytin_transformation
+
+    net = refmodel.abstract(c)
+    n = len(net.inputs)
+    ref = net.tables()
+    sels = [[i] for i in range(len(net.outputs))] + [None]
+    for sel in sels:
+        acc.states += 1
+        acc.traces += 1
+        acc.transitions += 1
+        case = {'medium': name, 'selection': sel}
+        try:
+            raw = tseytin_transformation(c, sel).get_raw()
+        except RecursionError:
+            acc.count('tseytin_recursion_limit')
+            continue
+        except Exception as e:  # noqa: BLE001
+            acc.violation(f'tseytin_transformation/raises-{type(e).__name__}', case, repr(e)[:200])
+            continue
+        nv = max([n] + [abs(l) for cl in raw for l in cl])
+        olabs = net.outputs if sel is None else [net.outputs[i] for i in sel]
+        for j in range(1 << n):
+            units = [[(i + 1) if (j >> (n - 1 - i)) & 1 else -(i + 1)] for i in range(n)]
+            want = all((ref[o] >> j) & 1 for o in olabs)
+            acc.transitions += 1
+            ms = []
+            for m in vsat.iter_models_proj(raw + units, nv, list(range(1, nv + 1))):
+                ms.append(m)
+                if len(ms) >= 2:
+                    break
+            if bool(ms) != want:
+                acc.violation('tseytin/satisfiable-iff-outputs-true', case, f'input row {j}: models={len(ms)} outputs-true={want}', {'medium': True})
+                break
+            if len(ms) > 1:
+                acc.violation('tseytin/extension-not-unique', case, f'input row {j}: a variable is not determined by the inputs', {'medium': True})
+                break
+        acc.outcome('cnf', ('medium', name.split('(')[0], nv > 128))
+    acc.sample({'medium': name, 'selection': None})
+
+
 def run_task(task, acc):
+    if task.get('kind') == 'medium':
+        from vmc import boot
+
+        boot.uuid_counter.reset()
+        lst = medium_circuits()
+        for name, c in lst[task['lo']:task['hi']]:
+            check_medium(acc, name, c)
+        return
     alpha = ALPHAS[task['alpha']]
     for gates in space.enum_gates(task['n'], task['k'], alpha, space.prefix_from_task(task)):
         check_circuit(task['n'], gates, acc, task['pol'])
@@ -222,5 +317,13 @@ def run_task(task, acc):
 def replay(case, acc):
     if 'task' in case:
         return run_task(case['task'], acc)
+    if 'medium' in case:
+        from vmc import boot
+
+        boot.uuid_counter.reset()
+        for name, c in medium_circuits():
+            if name == case['medium']:
+                check_medium(acc, name, c)
+        return
     n, gates, outs = space.spec_from_json(case)
     check_one(n, gates, outs, acc, sels=[case.get('selection')])
